@@ -19,7 +19,7 @@ RULE = ('case = (key shape: primary algorithm, subkey, protection state) x histo
 ASSUMPTIONS = ['vf.ref packet splitter and key-grammar parser', 'secret integers shorter than 8 octets are not scanned for']
 MIN_COUNTERS = {'quick': {'states_checked': 150, 'fresh_twin_matches': 150, 'private_ops_refused': 300, 'secret_scans': 300},
                 'thorough': {'states_checked': 3000}}
-BUDGET = {'quick': (240, 800), 'thorough': (1800, 3600)}
+BUDGET = {'quick': (600, 1500), 'thorough': (1800, 3600)}
 TECHNIQUE = 'runtime monitoring: history monitor; exports compared with the public projection computed by an independent parser; secret-octet scan; refusal matrix'
 
 SHAPES = [('ed25519_1', 'ecdh_p256_1+kdf10.9'), ('ecdsa_p384_0', 'cv25519_1+kdf9.8'), ('ed25519_0', 'cv25519_0'), ('rsa1024_0', 'rsa1024_1'), ('ecdsa_p256_0', 'ecdh_p256_0'), ('dsa1024_0', 'ed25519_1'), ('ecdsa_k256_0', 'ecdh_k256_0'), ('rsa2048_0', None)]
